@@ -63,7 +63,8 @@ class AbstractDeclarativeFactor(Analysis, ABC):
         """
         counter = Counter()
         for factor in self.model_factors:
-            for prior in factor.prior_model.priors:
+            # a prior held at several places of one factor is one variable of that factor
+            for prior in dict.fromkeys(factor.prior_model.priors):
                 counter[prior] += 1
         return [
             (prior, count + 1 if self.include_prior_factors else count)
